@@ -138,7 +138,13 @@ MandatoryOK(cfg) == (("s.svc" \in DOMAIN cfg) \/ ("s.svc.note" \in DOMAIN cfg)) 
 LeafrefOK(cfg) == ("s.primary" \in DOMAIN cfg) =>
                      \/ (cfg["s.primary"] = "s:$k1" /\ "i1.name" \in DOMAIN cfg)
                      \/ (cfg["s.primary"] = "s:$k2" /\ "i2.name" \in DOMAIN cfg)
-MustOK(cfg) == ("s.guard" \in DOMAIN cfg) => ("s.host" \in DOMAIN cfg)
+\* must statements of the verification schema:
+\*   sys/guard    must "../host"              the leaf exists
+\*   plain/lcheck must "../lim > -5"          a signed operand (values -7 and 3)
+\*   plain/gcheck must "/glob/limit > 1"      a leaf with default 2 below a container that may not be instantiated at all
+MustOK(cfg) == /\ ("s.guard" \in DOMAIN cfg) => ("s.host" \in DOMAIN cfg)
+               /\ ("pl.lcheck" \in DOMAIN cfg) => ("pl.lim" \in DOMAIN cfg /\ cfg["pl.lim"] = "i:3")
+               /\ ("pl.gcheck" \in DOMAIN cfg) => (("g.limit" \in DOMAIN cfg) => cfg["g.limit"] # "u:1")
 ValidCfg(cfg, dis) == /\ LeafLocalOK(cfg, dis)
                       /\ ("mandatory" \in dis \/ MandatoryOK(cfg))
                       /\ ("leafref" \in dis \/ LeafrefOK(cfg))
